@@ -37,9 +37,11 @@ def nameOK (host d : String) : Bool :=
 
 def colonFree (d : String) : Bool := !(d.toList.contains ':')
 
-/-- routable as far as status and expiry go (the translated `IsActive` on the written fields) -/
+/-- Routable as far as status and expiry go: status `active`, and no expiry time or one not yet passed.
+(Hand-written on purpose: the property's own reading of "inactive or expired", independent of the translated
+`IsActive`; `Props.C19_isActive_iff` shows they agree on the current source.) -/
 def routableSt (now : Nat) (status : String) (exp : Nat) : Bool :=
-  repos.HTTPDomainMapping.IsActive now ⟨"", "", "", "", 0, "", 0, status, exp⟩
+  status == repos.HTTPDomainMappingStatusActive && (exp == 0 || decide (now ≤ exp))
 
 def pmRoutable (now : Nat) (m : PM) : Bool :=
   m.status == models.MappingStatusActive && !m.revoked && !(m.expires != 0 && decide (m.expires < now))
